@@ -21,6 +21,7 @@ fn handler(op: &str) -> Option<Handler> {
         "D" => Some(ops_core::d_handler),
         "ES" => Some(ops_core::es_handler),
         "IC" => Some(ops_core::ic_handler),
+        "EBLK" => Some(ops_core::eblk_handler),
         "EIT" => Some(ops_core::eit_handler),
         "RT" => Some(ops_types::rt_handler),
         "DT" => Some(ops_types::dt_handler),
